@@ -15,6 +15,7 @@ import typefam
 import boundsfam
 import termfam
 import crashfam
+import builtinfam
 from vlib import InfraError
 
 CHECKS = {}
@@ -33,6 +34,8 @@ def replay(ctx, path):
     fam = obj.get("replay_family", "eval")
     if fam == "eval":
         return evalfam.replay(ctx, obj)
+    if fam == "builtins":
+        return builtinfam.replay(ctx, obj)
     if fam == "crash":
         return crashfam.replay(ctx, obj)
     if fam == "terms":
@@ -153,3 +156,8 @@ def c09(ctx):
 @register("C10")
 def c10(ctx):
     return crashfam.check_c10(ctx)
+
+
+@register("C07")
+def c07(ctx):
+    return builtinfam.check_c07(ctx)
